@@ -32,6 +32,9 @@ func (g *ogen) orderKey(used map[string]bool) (doc.Pair, bool) {
 			if k == "<<" {
 				k = "<<'"
 			}
+			if len(k) > 300 {
+				k = k[:300]
+			}
 			p.Key = k
 			feat = "key:tricky"
 		case 1: // numeric-looking, as a string
